@@ -21,6 +21,7 @@ type session struct {
 	nextH   int
 	nextEv  int
 	blocked bool
+	hung    bool // a Close() did not return (its caller is stuck; publishers and other subscribers are probed by the rest of the run)
 	closers sync.WaitGroup
 }
 
@@ -31,7 +32,11 @@ func newSession(timeout time.Duration) *session {
 }
 
 // within runs fn in its own goroutine and reports whether it returned within the timeout.
-func (s *session) within(fn func()) bool {
+func (s *session) within(fn func()) bool { return s.wait(fn, true) }
+
+// wait is within with a choice of what a timeout means: a blocked publisher/subscriber (mark) or only a
+// stuck auxiliary call (Close(), waiting for Done()), which makes the process unusable for further runs.
+func (s *session) wait(fn func(), mark bool) bool {
 	done := make(chan struct{})
 	go func() { fn(); close(done) }()
 	t := time.NewTimer(s.timeout)
@@ -41,13 +46,20 @@ func (s *session) within(fn func()) bool {
 		return true
 	case <-t.C:
 		s.mu.Lock()
-		s.blocked = true
+		if mark {
+			s.blocked = true
+		} else {
+			s.hung = true
+		}
 		s.mu.Unlock()
 		return false
 	}
 }
 
 func (s *session) isBlocked() bool { s.mu.Lock(); defer s.mu.Unlock(); return s.blocked }
+
+// isDirty: goroutines of this run may be stuck; the process must not be reused for another run.
+func (s *session) isDirty() bool { s.mu.Lock(); defer s.mu.Unlock(); return s.blocked || s.hung }
 
 func (s *session) newEvent() int { s.mu.Lock(); defer s.mu.Unlock(); e := s.nextEv; s.nextEv++; return e }
 
@@ -150,6 +162,9 @@ func (s *session) read(h int, d time.Duration) (int, string) {
 		return ev, "ok"
 	case <-t.C:
 		drv("read", ptr(sub), "flag", "timeout")
+		s.mu.Lock()
+		s.blocked = true // an owed event did not arrive: the run ends here (see Main: exit code 3)
+		s.mu.Unlock()
 		return 0, "timeout"
 	}
 }
@@ -176,7 +191,7 @@ func (s *session) closeCall(h int) (func(), string, bool) {
 }
 
 func (s *session) doClose(fn func(), id string) string {
-	if !s.within(fn) {
+	if !s.wait(fn, false) { // not a blocked publisher/subscriber by itself: the run goes on and probes those
 		drv("closeret", id, "flag", "blocked")
 		return "blocked"
 	}
